@@ -11,6 +11,10 @@ Correspondence (this file): the real `Stream.latest()` node runs on the virtual 
     a  arrive      (upstream emit of the next element)
     h  handle      (let the loop run its next ready handle)
     d  done        (complete the consumer's outstanding awaitable)
+    r  re-entrant  (arm the consumer: during the NEXT delivery the consumer itself emits a new
+                    element into the upstream of `latest` before it returns its future / None —
+                    a feedback cycle; in model terms an `arrive` while the coroutine is already in
+                    its `emitting` state, inside the very handle that performed the `resume`)
 executed from the loop's `after_handle` hook, so an arrival can be placed between any two
 handles — in particular between a `condition.notify` callback and the coroutine's resumption.
 The consumer is a sink whose `update` returns a Future the harness completes ('A' mode) or
@@ -69,6 +73,9 @@ class Exec:
         self.quiescent_points = 0
         self.busy_arrivals = 0          # arrivals while the consumer was busy
         self.gap_arrivals = 0           # arrivals between a notify and the resumption
+        self.armed = 0                  # pending 'r' tokens: the next `armed` deliveries re-enter
+        self.reentry = bool(case.get("reentry"))   # exhaustive mode: re-entry is a choice at each delivery
+        self.reentrant_arrivals = 0
         self.driving = False
         self.draining = False
         self.error = None
@@ -126,6 +133,22 @@ class Exec:
             # a node that re-delivers without bound would spin inside one handle: stop it (the
             # duplicate has been recorded above; the exception ends the forwarding coroutine)
             raise RuntimeError("C14 harness: runaway deliveries %r" % (self.deliveries[-6:],))
+        # ---- re-entrant arrival: the consumer feeds a new element back in before it returns
+        re = False
+        if self.chooser is not None:
+            if self.reentry and (self.max_arrivals is None or len(self.arrivals) < self.max_arrivals):
+                re = self.chooser(["-", "r"]) == "r"
+                if re:
+                    self.executed.append("r")     # lands before the 'h' of the handle in progress
+        elif self.armed:
+            self.armed -= 1
+            re = True
+        if re:
+            self.do_rearrive()
+            if CHECK_REFS and idx and self.refs[idx - 1].count < 1:
+                self.problem("latest-ref-released-in-flight",
+                             "reference of arrival %d dropped to %d when the consumer, while being handed it, emitted "
+                             "the next element" % (idx, self.refs[idx - 1].count))
         mode = self.modes[(len(self.deliveries) - 1) % len(self.modes)]
         if mode == "S":
             self.events.append("syncdone")
@@ -180,6 +203,8 @@ class Exec:
                 acts += "N"
             elif e == "wait":
                 acts += "R"
+            elif e == "rearrive":
+                acts += "A"
             elif e == "syncdone":
                 acts += "D"
             else:
@@ -257,6 +282,10 @@ class Exec:
                     if any(not h._cancelled for h in self.loop._ready):
                         return          # the loop now runs exactly one handle, then calls us again
                     continue
+                if tok == "r":
+                    self.armed += 1
+                    self.executed.append("r")
+                    continue
                 if tok == "a":
                     if self.max_arrivals is not None and len(self.arrivals) >= self.max_arrivals:
                         continue
@@ -270,12 +299,25 @@ class Exec:
             self.error = e
             self.finish()
 
-    def do_arrive(self):
+    def new_element(self):
         i = len(self.arrivals) + 1
         p = Falsy(i) if self.payload_kind == "falsy" else ("v%d" % i if self.payload_kind == "str" else [i])
         ref = self.RefCounter()
         self.arrivals.append(p)
         self.refs.append(ref)
+        return p, ref
+
+    def do_rearrive(self):
+        """Called from inside the consumer, i.e. inside latest.cb's `self._emit(x, ...)`: the slot has
+        been taken and the delivery has started; now `update` runs re-entrantly (slot filled, notify queued)."""
+        p, ref = self.new_element()
+        self.reentrant_arrivals += 1
+        self.busy_arrivals += 1
+        self.events.append("rearrive")
+        self.source.emit(p, metadata=[{"ref": ref}])
+
+    def do_arrive(self):
+        p, ref = self.new_element()
         if self.outstanding is not None:
             self.busy_arrivals += 1
         elif not self.cond._waiters and self.steps:
@@ -350,7 +392,8 @@ def gen_case(rng):
     """Structured random schedule: a style fixes the action weights, so that bursts during a busy
     period, arrivals exactly one loop turn apart, long idle stretches and fully synchronous
     consumers are all frequent."""
-    style = rng.choice(["uniform", "uniform", "turn-apart", "busy-burst", "eager-loop", "slow-loop", "sync"])
+    style = rng.choice(["uniform", "uniform", "turn-apart", "busy-burst", "eager-loop", "slow-loop", "sync",
+                        "feedback", "feedback"])
     n = rng.choice([3, 6, 10, 16, 25, 40])
     toks = []
     if style == "turn-apart":
@@ -368,9 +411,19 @@ def gen_case(rng):
             toks += ["a"] + ["h"] * rng.randint(1, 4)            # get one element into delivery
             toks += [rng.choice("aah") for _ in range(rng.randint(1, 6))]   # burst while busy
             toks += ["d"] + ["h"] * rng.randint(0, 4)
+    elif style == "feedback":
+        # the consumer feeds elements back into the upstream while it is being handed one (re-entrant
+        # arrivals), alone (the chain ends with the newest element) or mixed with outside arrivals
+        toks += ["h"] * rng.randint(0, 2)
+        for _ in range(rng.randint(1, 3)):
+            toks += ["r"] * rng.randint(1, 4) + ["a"]
+            toks += rng.choices("hdar", weights=(6, 3, 1, 1), k=rng.randint(0, 10))
     else:
-        w = {"uniform": (3, 4, 2), "eager-loop": (2, 8, 2), "slow-loop": (4, 2, 2), "sync": (3, 5, 0)}[style]
-        toks = rng.choices("ahd", weights=w, k=n)
+        w = {"uniform": (3, 4, 2, 1), "eager-loop": (2, 8, 2, 1), "slow-loop": (4, 2, 2, 1), "sync": (3, 5, 0, 1)}[style]
+        toks = rng.choices("ahdr", weights=w, k=n)
+    if style in ("turn-apart", "busy-burst") and rng.random() < 0.3:
+        for _ in range(rng.randint(1, 2)):
+            toks.insert(rng.randint(0, len(toks)), "r")
     if style == "sync":
         modes = "S"
     else:
@@ -396,6 +449,12 @@ CORPUS = [
     {"tokens": "hahhaahhh", "modes": "S", "payload": "falsy", "style": "corpus:sync"},
     {"tokens": "hahhahdhh", "modes": "A", "payload": "falsy", "style": "corpus:falsy"},
     {"tokens": "", "modes": "A", "payload": "idx", "style": "corpus:no-input"},
+    # re-entrant arrivals: the consumer emits the next element while it is being handed the current one
+    # (feedback cycle); synchronous consumer / slow consumer that feeds back before it starts waiting
+    {"tokens": "rrrah", "modes": "S", "payload": "idx", "style": "corpus:feedback-sync"},
+    {"tokens": "rrrah", "modes": "A", "payload": "idx", "style": "corpus:feedback-slow"},
+    {"tokens": "hahrhahh", "modes": "AS", "payload": "falsy", "style": "corpus:feedback-then-outside-arrival"},
+    {"tokens": "hrahhdhh", "modes": "A", "payload": "idx", "style": "corpus:feedback-last-element"},
 ]
 
 
@@ -460,6 +519,11 @@ class Batch:
             ctx.count("several-arrivals-in-busy-period")
         if ex.gap_arrivals:
             ctx.count("arrival-between-notify-and-resumption")
+        if ex.reentrant_arrivals:
+            ctx.count("re-entrant-arrival-during-delivery")
+            if ex.reentrant_arrivals and ex.steps and any("rearrive" in st["events"] and st["events"][-1] != "rearrive"
+                                                        for st in ex.steps):
+                ctx.count("re-entrant-arrival-delivered-in-same-handle")
         if skipped > 0:
             ctx.count("some-element-skipped")
         ctx.count("quiescent-points-judged", ex.quiescent_points)
@@ -507,6 +571,9 @@ def run(ctx):
         "the event loop runs ready handles in FIFO order; the model allows ANY order of the queued notify callbacks and the "
         "coroutine's resumption, so every real schedule is a model schedule",
         "the consumer completes every awaitable it returns (otherwise 'the consumer becomes free' never happens)",
+        "a re-entrant arrival (the consumer emits into the upstream of latest during the call that hands it an element) is "
+        "the model action `arrive` taken in state `emitting`, inside the handle that performed `resume`; arrivals from other "
+        "threads are excluded (update runs on the loop thread)",
         "observation of the node: latest.next, a logging subclass of tornado.locks.Condition installed as latest._condition, "
         "the loop's ready queue (CPython private _ready), a sink whose awaitable the harness completes",
     ]
@@ -519,12 +586,13 @@ def run(ctx):
     exh = [("A", 4), ("AS", 4), ("SA", 4), ("S", 4)]
     if ctx.thorough():
         exh = [("A", 5), ("AS", 5), ("SA", 5), ("S", 6), ("AAS", 4)]
-    cap = 400000 if ctx.thorough() else 40000     # > 10x the size of the largest tree of a conforming node
+    cap = 1000000 if ctx.thorough() else 60000     # > 10x the size of the largest tree of a conforming node
     for modes, nmax in exh:
         broken = False
         for n in range(1, nmax + 1):
             k = 0
-            for ex in enumerate_paths({"max_arrivals": n, "modes": modes, "payload": "idx", "style": "exhaustive"}):
+            for ex in enumerate_paths({"max_arrivals": n, "modes": modes, "payload": "idx", "style": "exhaustive",
+                                       "reentry": True}):
                 batch.add(ex, "exhaustive")
                 ctx.count("exhaustive:%s:%d" % (modes, n))
                 k += 1
@@ -543,10 +611,12 @@ def run(ctx):
                 break
     batch.judge()
     ctx.coverage["rule"] = (
-        "corpus (incl. the two Lean witness schedules) + seeded schedules over {arrive, run one ready handle, complete consumer} "
-        "in 7 styles (uniform, arrivals one loop turn apart, bursts during a busy period, eager/slow loop, synchronous consumer), "
-        "consumer mode per delivery async/sync, 3 payload kinds; + EXHAUSTIVE enumeration of every maximal interleaving with "
-        "<= 4 arrivals (quick; <= 5 thorough) for async, sync and alternating consumers.  Every run is drained at the end and the oracle "
+        "corpus (incl. the two Lean witness schedules) + seeded schedules over {arrive, run one ready handle, complete consumer, "
+        "re-entrant arrival = the consumer itself emits during the next delivery} "
+        "in 8 styles (uniform, arrivals one loop turn apart, bursts during a busy period, eager/slow loop, synchronous consumer, "
+        "feedback cycles), consumer mode per delivery async/sync, 3 payload kinds; + EXHAUSTIVE enumeration of every maximal "
+        "interleaving with <= 4 arrivals (quick; <= 5 thorough) for async, sync and alternating consumers, where at every delivery "
+        "the consumer may or may not re-enter.  Every run is drained at the end and the oracle "
         "is evaluated at every point where the loop is idle.  Non-trivial: >= 2 arrivals and at least one arrival while the "
         "consumer is busy or between a notify callback and the coroutine's resumption.  Distinct = distinct schedule JSON.")
 
